@@ -380,6 +380,15 @@ def _run_reject(case):
     flags["center_len2"] = rejects(Sphere, n=1.5, r=1.0, center=(0, 0))
     flags["center_len4"] = rejects(Sphere, n=1.5, r=1.0, center=(0, 0, 0, 0))
     flags["center_scalar"] = rejects(Sphere, n=1.5, r=1.0, center=5)
+    # the layered sphere given by thicknesses gets the same checks as any other sphere
+    from holopy.scattering.scatterer import LayeredSphere
+    flags["layered_t_negative"] = rejects(LayeredSphere, n=[1.5, 1.4], t=[-0.5, 0.2], center=(0, 0, 0))
+    flags["layered_t_center_len2"] = rejects(LayeredSphere, n=[1.5, 1.4], t=[0.5, 0.2], center=(1.0, 2.0))
+    flags["layered_t_center_scalar"] = rejects(LayeredSphere, n=[1.5, 1.4], t=[0.5, 0.2], center=5.0)
+    flags["layered_t_center_len4"] = rejects(LayeredSphere, n=[1.5, 1.4], t=[0.5, 0.2], center=(1.0, 2.0, 3.0, 4.0))
+    # a centre is three numbers, not three lists
+    flags["center_three_pairs"] = rejects(Sphere, n=1.5, r=1.0, center=[[1.0, 2.0], [3.0, 4.0], [5.0, 6.0]])
+    flags["center_nested_arrays"] = rejects(Sphere, n=1.5, r=1.0, center=np.zeros((3, 2)))
     flags["ellipsoid_center_len2"] = rejects(Ellipsoid, n=1.5, r=(1, 1, 1), center=(0, 0))
     flags["ellipsoid_r_len2"] = rejects(Ellipsoid, n=1.5, r=(1, 1), center=(0, 0, 0))
     flags["spheres_with_ellipsoid"] = rejects(Spheres, [good, Ellipsoid(n=1.5, r=(1, 1, 1), center=(3, 3, 3))])
@@ -394,6 +403,8 @@ def _run_reject(case):
     try:
         Sphere(n=1.5, r=0.0, center=(0, 0, 0)); Sphere(n=1.5, r=1.0, center=[1, 2, 3]); Sphere(n=1.5, r=1.0, center=np.array([1., 2, 3]))
         Spheres([good, Sphere(n=1.4, r=0.5, center=(5, 5, 5))])
+        LayeredSphere(n=[1.5, 1.4], t=[0.5, 0.2], center=(0, 0, 1)); LayeredSphere(n=[1.5, 1.4], t=[0.5, 0.0], center=np.array([0., 0, 1]))
+        LayeredSphere(n=[1.5, 1.4], t=[0.5, 0.2]); Sphere(n=1.5, r=1.0, center=(np.float64(1), 2, np.array(3.0)))
     except Exception:
         ok = False
     flags["valid_accepted"] = ok
